@@ -11,10 +11,11 @@ import time
 import typing
 import warnings
 
+from .. import classscope as cs
 from .. import e2e, schemagen
 from .. import typetrees as tt
 from ..common import REPO, Rng, hx, unhx
-from ..runner import Check
+from ..runner import Check, match_finding
 
 # ---------------------------------------------------------------- S-expressions of the driver replies
 def parse_sx(text: str):
@@ -339,70 +340,10 @@ def campaign_type_imports(ck: Check, n: int, thorough: bool) -> None:
 
 
 # ---------------------------------------------------------------- static scope analysis of an emitted module
-BUILTINS = set(dir(builtins))
-
-
-def names_in(node: ast.AST, skip_literal: bool = True) -> list[str]:
-    """identifiers read in an expression; string constants are forward references (parsed), except
-    inside Literal[...]"""
-    out: list[str] = []
-
-    def visit(n):
-        if isinstance(n, ast.Subscript) and isinstance(n.value, ast.Name) and n.value.id == "Literal" and skip_literal:
-            out.append("Literal")
-            return
-        if isinstance(n, ast.Name) and isinstance(n.ctx, ast.Load):
-            out.append(n.id)
-        elif isinstance(n, ast.Attribute):
-            visit(n.value)
-            return
-        elif isinstance(n, ast.Lambda):
-            visit(n.body)
-            return
-        for c in ast.iter_child_nodes(n):
-            visit(c)
-
-    visit(node)
-    return out
-
-
-def annotation_names(node: ast.AST) -> list[str]:
-    out = names_in(node)
-
-    def strings(n, in_literal=False, in_meta=False):
-        if isinstance(n, ast.Subscript) and isinstance(n.value, ast.Name) and n.value.id == "Literal":
-            return
-        if isinstance(n, ast.Subscript) and isinstance(n.value, ast.Name) and n.value.id == "Annotated":
-            elts = n.slice.elts if isinstance(n.slice, ast.Tuple) else [n.slice]
-            if elts:
-                strings(elts[0])
-            return
-        if isinstance(n, ast.Call):
-            return
-        if isinstance(n, ast.Constant) and isinstance(n.value, str):
-            try:
-                sub = ast.parse(n.value, mode="eval").body
-            except SyntaxError:
-                return
-            out.extend(annotation_names(sub))
-            return
-        for c in ast.iter_child_nodes(n):
-            strings(c)
-
-    strings(node)
-    return out
-
-
-def bound_by(stmt: ast.stmt) -> list[str]:
-    if isinstance(stmt, (ast.Import, ast.ImportFrom)):
-        return [(a.asname or a.name).split(".")[0] for a in stmt.names if a.name != "*"]
-    if isinstance(stmt, (ast.ClassDef, ast.FunctionDef, ast.AsyncFunctionDef)):
-        return [stmt.name]
-    if isinstance(stmt, ast.Assign):
-        return [t.id for t in stmt.targets if isinstance(t, ast.Name)]
-    if isinstance(stmt, ast.AnnAssign) and isinstance(stmt.target, ast.Name) and stmt.value is not None:
-        return [stmt.target.id]
-    return []
+BUILTINS = cs.BUILTINS
+names_in = cs.names_in
+annotation_names = cs.annotation_names
+bound_by = cs.bound_by
 
 
 def scope_analysis(code: str) -> list[dict]:
@@ -600,21 +541,64 @@ def instance_check(mod, kind: str, root: str, instance) -> dict | None:
     return None
 
 
-def dynamic_check(code: str, kind: str, instance=None, root: str = "Model") -> dict | None:
-    """None when the module imports and every model resolves its forward references; else the failure.
-    Only failures of *name binding* count (NameError and the libraries' undefined-annotation errors)."""
+def _exc_event(e: BaseException, code: str, where: str, cls: str | None = None) -> dict:
+    site = cs.exception_site(e, code) if cls is None else {"line": None, "top": cls}
+    kind = "name_error" if (isinstance(e, NameError) or undefined_name(e)) else "environment" if isinstance(e, ImportError) else "exception"
+    return {"where": where, "kind": kind, "type": type(e).__name__, "text": cs.exception_text(e), "undefined": undefined_name(e), "top": site.get("top"), "line": site.get("line")}
+
+
+def _same_type(a, b) -> bool:
+    try:
+        return bool(a == b)
+    except Exception:  # noqa: BLE001
+        return repr(a) == repr(b)
+
+
+def _norm_none(t):
+    return type(None) if t is None else t
+
+
+def _plain_typing(t) -> bool:
+    """the comparison `library-resolved type == annotation evaluated in module scope` is meaningful:
+    no Annotated metadata / constrained-type call inside (pydantic rewrites those), only classes and
+    typing constructs"""
+    seen: set = set()
+
+    def go(x) -> bool:
+        if id(x) in seen:
+            return True
+        seen.add(id(x))
+        if typing.get_origin(x) is typing.Annotated:
+            return False
+        if isinstance(x, (list, tuple)):
+            return all(go(y) for y in x)
+        if typing.get_origin(x) is typing.Literal:
+            return True
+        if not typing.get_args(x):
+            return isinstance(x, type) or x is typing.Any or x is None
+        return all(go(a) for a in typing.get_args(x))
+
+    return go(t)
+
+
+def dynamic_observe(code: str, kind: str, hidings: list[dict], instance=None, root: str = "Model") -> dict:
+    """What really happens: import the module; resolve every class the way its library does
+    (model_rebuild / update_forward_refs / typing.get_type_hints); for dataclasses additionally ask
+    the evaluators that look into the class namespace first (inspect.get_annotations(eval_str=True));
+    compare what the library resolved with the annotation evaluated in the module's global scope.
+    Nothing is swallowed: every exception is an event (the oracle attributes it or files it in a
+    named bucket)."""
+    obs: dict = {"events": [], "silent": [], "hiding": None, "instance": None, "imported": False}
     try:
         mod = e2e.load_module(code, kind)
-    except NameError as e:
-        return {"mechanism": "import_nameerror", "name": undefined_name(e) or "?", "where": "module import", "error": f"NameError: {e}"}
-    except ImportError as e:
-        return {"mechanism": "environment", "name": "", "where": "module import", "error": f"ImportError: {e}"}
     except Exception as e:  # noqa: BLE001
-        n = undefined_name(e)
-        if n:
-            return {"mechanism": "import_nameerror", "name": n, "where": "module import", "error": f"{type(e).__name__}: {e}"}
-        return {"mechanism": "other_error", "name": "", "where": "module import", "error": f"{type(e).__name__}: {str(e)[:200]}"}
+        obs["events"].append(_exc_event(e, code, "module import"))
+        return obs
+    obs["imported"] = True
     try:
+        top_of = {}
+        for c in classes_of(mod):
+            top_of[c] = c.__qualname__.split(".")[0]
         for cls in classes_of(mod):
             try:
                 with warnings.catch_warnings():
@@ -625,27 +609,63 @@ def dynamic_check(code: str, kind: str, instance=None, root: str = "Model") -> d
                     elif kind == "pydantic.BaseModel":
                         if hasattr(cls, "update_forward_refs"):
                             cls.update_forward_refs()
-                    else:
+                    elif not (kind == "dataclasses.dataclass" and dataclasses.is_dataclass(cls)):
                         typing.get_type_hints(cls, include_extras=True)
-            except NameError as e:
-                return {"mechanism": "unresolved_forward_ref", "name": undefined_name(e) or "?", "where": cls.__name__, "error": f"NameError: {e}"}
-            except ImportError as e:
-                return {"mechanism": "environment", "name": "", "where": cls.__name__, "error": f"ImportError: {e}"}
             except Exception as e:  # noqa: BLE001
-                n = undefined_name(e)
-                if n:
-                    return {"mechanism": "unresolved_forward_ref", "name": n, "where": cls.__name__, "error": f"{type(e).__name__}: {str(e)[:200]}"}
-                return {"mechanism": "other_error", "name": "", "where": cls.__name__, "error": f"{type(e).__name__}: {str(e)[:200]}"}
-        hid = hiding_check(mod, kind)
-        if hid:
-            return hid
-        if instance is not None:
-            bad = instance_check(mod, kind, root, instance)
-            if bad:
-                return bad
+                obs["events"].append(_exc_event(e, code, "resolution of " + cls.__name__, cls=top_of[cls]))
+                continue
+            if kind == "dataclasses.dataclass" and dataclasses.is_dataclass(cls):
+                # who evaluates the annotations of a dataclass, against the annotation evaluated in the module's scope
+                expected = {}
+                for m, text in cls.__dict__.get("__annotations__", {}).items():
+                    if isinstance(text, str):
+                        try:
+                            with warnings.catch_warnings():
+                                warnings.simplefilter("ignore")
+                                expected[m] = eval(text, dict(vars(mod)))  # noqa: S307
+                        except Exception:  # noqa: BLE001
+                            pass
+                for consumer, fn in (("typing.get_type_hints", lambda c: typing.get_type_hints(c, include_extras=True)),
+                                     ("inspect.get_annotations(eval_str=True)", lambda c: inspect.get_annotations(c, eval_str=True))):
+                    try:
+                        with warnings.catch_warnings():
+                            warnings.simplefilter("ignore")
+                            seen = fn(cls)
+                    except Exception as e:  # noqa: BLE001
+                        ev = _exc_event(e, code, consumer + " of " + cls.__name__, cls=top_of[cls])
+                        ev["consumer"] = consumer
+                        obs["events"].append(ev)
+                        continue
+                    for m, t in seen.items():
+                        if m in expected and not _same_type(_norm_none(t), _norm_none(expected[m])):
+                            obs["silent"].append({"cls": top_of[cls], "member": m, "consumer": consumer, "resolved": str(t)[:80], "module_scope": str(expected[m])[:80]})
+        # pydantic v2, no exception: what did the library resolve the members to?
+        if kind == "pydantic_v2.BaseModel" and not obs["events"]:
+            for cls in classes_of(mod):
+                if not hasattr(cls, "model_fields"):
+                    continue
+                for m, text in cls.__dict__.get("__annotations__", {}).items():
+                    f = cls.model_fields.get(m)
+                    if not isinstance(text, str) or f is None:
+                        continue
+                    try:
+                        with warnings.catch_warnings():
+                            warnings.simplefilter("ignore")
+                            expected = eval(text, dict(vars(mod)))  # noqa: S307
+                    except Exception:  # noqa: BLE001
+                        continue
+                    have = f.annotation
+                    if typing.get_origin(expected) is typing.Annotated:
+                        expected = typing.get_args(expected)[0]
+                    if not _same_type(_norm_none(expected), _norm_none(have)) and _plain_typing(expected):
+                        obs["silent"].append({"cls": top_of[cls], "member": m, "consumer": "pydantic (class creation)", "resolved": str(have)[:80], "module_scope": str(expected)[:80]})
+        if not obs["events"]:
+            obs["hiding"] = hiding_check(mod, kind)
+            if instance is not None and not obs["hiding"]:
+                obs["instance"] = instance_check(mod, kind, root, instance)
     finally:
         e2e.unload(mod)
-    return None
+    return obs
 
 
 TYPING_NAMES = {"Optional", "Union", "Literal", "List", "Set", "Dict", "Sequence", "FrozenSet", "Mapping", "Any", "Annotated", "TypeAlias", "NotRequired", "TypedDict"}
@@ -668,48 +688,152 @@ def name_class(name: str, code: str) -> str:
     return "other"
 
 
+class Buckets:
+    """exceptions of emitted modules that are not name-binding failures: counted per bucket, one
+    example each, with the disposition found when the bucket was investigated (cs.TRIAGE)"""
+
+    def __init__(self) -> None:
+        self.by_key: dict[str, dict] = {}
+
+    def add(self, ev: dict, inp: dict, code: str) -> str:
+        disp, owner, why = cs.triage(ev["text"])
+        key = cs.bucket_key(ev["text"])
+        b = self.by_key.setdefault(key, {"count": 0, "disposition": disp, "owner": owner, "why": why, "kinds": {}, "where": ev["where"].split(" of ")[0],
+                                         "example": {"document": inp.get("document"), "model": inp.get("model"), "opts": inp.get("opts"), "target": inp.get("target"),
+                                                     "input_file_type": inp.get("input_file_type"), "exception": ev["text"], "line": ev.get("line"),
+                                                     "source_line": (code.split("\n")[ev["line"] - 1].strip()[:160] if ev.get("line") else None)}})
+        b["count"] += 1
+        b["kinds"][inp.get("model")] = b["kinds"].get(inp.get("model"), 0) + 1
+        return disp
+
+    def evidence(self) -> dict:
+        return dict(sorted(self.by_key.items(), key=lambda kv: (-kv[1]["count"], kv[0])))
+
+
+BUCKETS = Buckets()
+
+
+def shadow_classification(p: dict, kind: str, seen: str, inp: dict, code: str) -> dict:
+    return {
+        "oracle": "module_binding",
+        "mechanism": "shadowed_name",
+        "use": "member_hides_name",
+        "name": p["name"],
+        "name_class": p["name_class"],
+        "hider": p["hider"],
+        "hider_binding": p["hider_binding"].split(":")[0],
+        "phase": p["phase"],
+        "use_kind": p["use_kind"],
+        "observed_at": p["observed_at"],
+        "effect": p["effect"],
+        "kind": kind,
+        "seen": seen,
+        "alias_pass": p["name"].endswith("_aliased") or f"{p['name']} as {p['name']}_aliased" in code,
+        "opts_key": opts_key(inp.get("opts", {})),
+        "keep_model_order": bool(inp.get("opts", {}).get("keep_model_order")),
+    }
+
+
 def oracle_module(ck: Check, camp, inp: dict, code: str, kind: str, executable: bool) -> bool:
-    """The property on one emitted module. Returns True when it holds."""
+    """The property on one emitted module. Returns True when it holds.
+
+    Three views must agree: the static scope analysis (module level: `scope_analysis`, class level:
+    `classscope.class_scope_problems`), the Lean model of the same (`tie_lean`, batched by the
+    caller) and what really happens on import/resolution.  A static hiding that nothing shows
+    dynamically, or a dynamic hiding the static analysis did not predict, is a disagreement."""
     if e2e.parses(code) is not None:
         camp.hit("unparsable(C01)")
         return True
     static = scope_analysis(code)
-    dyn = dynamic_check(code, kind, inp.get("instance"), inp.get("root", "Model")) if executable else None
-    if dyn and dyn["mechanism"] in ("environment", "other_error"):
-        camp.hit("dynamic:" + dyn["mechanism"])
-        if dyn["mechanism"] == "other_error":
-            camp.hit("other_error:" + dyn["error"].split(":")[0])
-        dyn = None
-    problem = None
-    if dyn:
-        # classify through the static analysis when it names the same identifier
-        st = next((p for p in static if p["name"] == dyn["name"]), None)
-        mech = "shadowed_name" if dyn["mechanism"] == "shadowed_name" else st["mechanism"] if st else ("missing_import" if dyn["mechanism"] == "import_nameerror" else "unresolved_forward_ref")
-        if mech == "shadowed_name":
-            st = None
-        problem = {"mechanism": mech, "name": dyn["name"], "where": dyn["where"], "observed": dyn["error"], "seen": "dynamic" + ("+static" if st else ""),
-                   "use": "member_hides_class" if mech == "shadowed_name" else st["use"] if st else "resolution", "hider": dyn.get("hider")}
-    elif static:
+    hid_all = cs.class_scope_problems(code)
+    hid = cs.applicable(hid_all, kind)
+    for p in hid_all:
+        camp.hit(f"static_hiding:{p['phase']}:{p['name_class']}" + ("" if any(q["cls"] == p["cls"] and q["name"] == p["name"] and q["phase"] == p["phase"] and q["user"] == p["user"] for q in hid) else ":kind_not_affected"))
+    buckets = getattr(ck, "buckets", None) or BUCKETS
+    obs = dynamic_observe(code, kind, hid, inp.get("instance"), inp.get("root", "Model")) if executable else None
+    failures: list[tuple[dict, str]] = []  # (classification, observed)
+    base = {"oracle": "module_binding", "kind": kind, "opts_key": opts_key(inp.get("opts", {})), "keep_model_order": bool(inp.get("opts", {}).get("keep_model_order"))}
+
+    def binding_failure(mech: str, name: str, where: str, observed: str, seen: str, use: str, hider=None) -> None:
+        c = dict(base, mechanism=mech, name=name, name_class=name_class(name, code), use=use, seen=seen,
+                 alias_pass=name.endswith("_aliased") or f"{name} as {name}_aliased" in code)
+        if hider:
+            c["hider"] = hider
+        failures.append((c, f"{observed} [{where}]"))
+
+    demonstrated: set[int] = set()
+    if obs:
+        for ev in obs["events"]:
+            if ev["kind"] == "name_error":
+                name = ev["undefined"] or "?"
+                st = next((p for p in static if p["name"] == name), None)
+                at_import = ev["where"] == "module import"
+                mech = st["mechanism"] if st else ("missing_import" if at_import else "unresolved_forward_ref")
+                binding_failure(mech, name, ev["where"], ev["text"], "dynamic" + ("+static" if st else ""), st["use"] if st else "resolution")
+                continue
+            if ev["kind"] == "environment":
+                camp.hit("dynamic:environment")
+                buckets.add(ev, inp, code)
+                continue
+            want = "consumer" if ev.get("consumer") else "import"
+            cands = [i for i, p in enumerate(hid) if p["top"] == ev["top"] and p["observed_at"] == want and p["effect"] in ("exception", "value_dependent")]
+            if cands:  # an exception of a class whose namespace hides a name its annotations/eager expressions use
+                demonstrated.update(cands)
+                p = hid[cands[0]]
+                failures.append((shadow_classification(p, kind, "static+dynamic", inp, code),
+                                 f"{ev['text']} at {ev['where']}: member {p['name']!r} of {p['cls']} ({p['hider_binding']}) hides the name {p['name']} used by the {p['use_kind']} of {p['cls']}.{p['user']}"))
+            else:
+                disp = buckets.add(ev, inp, code)
+                camp.hit("exception_not_name_binding:" + disp)
+        for s in obs["silent"]:
+            cands = [i for i, p in enumerate(hid) if p["cls"] == s["cls"] and p["user"] == s["member"] and p["phase"] == "class_creation" and p["effect"] in ("silent", "value_dependent")]
+            if cands:
+                demonstrated.update(cands)
+                p = hid[cands[0]]
+                failures.append((shadow_classification(p, kind, "static+dynamic", inp, code),
+                                 f"{s['consumer']} resolves {s['cls']}.{s['member']} to {s['resolved']} (module scope: {s['module_scope']}): member {p['name']!r} ({p['hider_binding']}) hides the name"))
+            else:
+                ck.disagree(camp, dict(inp, code=code), "static class-scope analysis: nothing hidden for this member", s)
+        if obs["hiding"]:
+            h = obs["hiding"]
+            cands = [i for i, p in enumerate(hid) if p["name"] == h["name"] and p["phase"] == "class_creation"]
+            if cands:
+                demonstrated.update(cands)
+                if not any(c["mechanism"] == "shadowed_name" and c["name"] == h["name"] for c, _ in failures):
+                    failures.append((shadow_classification(hid[cands[0]], kind, "static+dynamic", inp, code), h["error"]))
+            else:
+                ck.disagree(camp, dict(inp, code=code), "static class-scope analysis: no member hides " + h["name"], h["error"])
+                binding_failure("shadowed_name", h["name"], h["where"], h["error"], "dynamic", "member_hides_class", h.get("hider"))
+        if obs["instance"] and not failures:
+            i = obs["instance"]
+            binding_failure("shadowed_name", "", i["where"], i["error"], "dynamic", "member_hides_class", "unknown")
+        # the static analysis predicted a hiding the run does not show: the analysis (or the harness) is wrong
+        if obs["imported"] or any(ev["where"] == "module import" and ev["kind"] == "exception" for ev in obs["events"]):
+            for i, p in enumerate(hid):
+                if i in demonstrated or not p["certain"]:
+                    continue
+                same_class_failed = any(j in demonstrated and hid[j]["top"] == p["top"] for j in range(len(hid)))
+                import_failed_elsewhere = not obs["imported"]
+                if same_class_failed or import_failed_elsewhere:
+                    continue  # the class (or the module) stopped at an earlier failure: this one was not reached
+                ck.disagree(camp, dict(inp, code=code), {k: p[k] for k in ("cls", "name", "phase", "use_kind", "user", "observed_at")}, "no exception and no differing resolution observed")
+    else:
+        for p in hid:  # msgspec: static only — what plain class-body evaluation makes certain
+            if p["effect"] != "exception":
+                continue
+            failures.append((shadow_classification(p, kind, "static", inp, code),
+                             f"static class-scope analysis: member {p['name']!r} of {p['cls']} ({p['hider_binding']}) hides the name {p['name']} used by the {p['use_kind']} of {p['cls']}.{p['user']}"))
+    if not failures and static:
         p = static[0]
-        problem = {"mechanism": p["mechanism"], "name": p["name"], "where": p["where"], "observed": f"static scope analysis: {p['name']} ({p['where']})", "seen": "static", "use": p["use"]}
-    if problem is None:
+        binding_failure(p["mechanism"], p["name"], p["where"], f"static scope analysis: {p['name']} ({p['where']})", "static", p["use"])
+    if not failures:
         return True
-    cls = {
-        "oracle": "module_binding",
-        "mechanism": problem["mechanism"],
-        "name": problem["name"],
-        "name_class": name_class(problem["name"], code),
-        "use": problem["use"],
-        # the name is one the pass Parser.__alias_shadowed_imports introduced, or one whose import that pass aliased
-        "alias_pass": problem["name"].endswith("_aliased") or f"{problem['name']} as {problem['name']}_aliased" in code,
-        "kind": kind,
-        "seen": problem["seen"],
-        "opts_key": opts_key(inp.get("opts", {})),
-        "keep_model_order": bool(inp.get("opts", {}).get("keep_model_order")),
-    }
-    if problem.get("hider"):
-        cls["hider"] = problem["hider"]
-    ck.fail(cls, dict(inp, code=code), f"{problem['observed']} [{problem['where']}]")
+    reported = set()
+    for cls, observed in failures:  # every distinct failure of the module (a known one must not mask a new one)
+        key = (cls["mechanism"], cls["name"], cls["use"], cls.get("phase"))
+        if key not in reported:
+            reported.add(key)
+            ck.fail(cls, dict(inp, code=code), observed)
     return False
 
 
@@ -766,7 +890,27 @@ def campaign_hiding(ck: Check, camp, rng: Rng, n: int) -> None:
         e2e_case(ck, camp, doc, kind, dict(rng.choice(HIDE_OPTS)), None, "jsonschema", feats, instance=inst)
 
 
-def campaign_e2e(ck: Check, n: int, n_collide: int, n_gql: int, n_hide: int = 60) -> None:
+SHADOW_OPTS = [{}, {}, {}, {"use_union_operator": True}, {"use_standard_collections": True}, {"use_annotated": True, "field_constraints": True}, {"field_constraints": True},
+               {"use_generic_container_types": True}, {"enum_field_as_literal": "all"}, {"set_default_enum_member": True}, {"use_default_kwarg": True},
+               {"use_standard_collections": True, "use_union_operator": True}, {"use_field_description": True}, {"use_unique_items_as_set": True}, {"strip_default_none": True}]
+GRID_NAMES = ["Optional", "List", "Dict", "Union", "Literal", "Any", "str", "int", "list", "Field", "field", "BaseModel", "constr", "date", "Model", "Address", "Kind", "Annotated"]
+
+
+def campaign_shadow(ck: Check, camp, rng: Rng, n: int, grid_kinds: list[str]) -> None:
+    """members named like a name the module needs (typing construct, builtin, library name, the
+    class itself, a sibling's class): required / optional / with a default / with a Field(...) value,
+    before and after the members that use the name, in every output kind"""
+    for i, name in enumerate(GRID_NAMES):
+        for j, mode in enumerate(schemagen.SHADOW_MODES):
+            doc = schemagen.shadow_grid_document(name, mode, "first" if (i + j) % 2 == 0 else "last")
+            for kind in grid_kinds:
+                e2e_case(ck, camp, doc, kind, {}, None, "jsonschema", [f"shadow_grid:{mode}"])
+    for i in range(n):
+        doc, feats = schemagen.shadow_document(rng)
+        e2e_case(ck, camp, doc, e2e.MODEL_KINDS[i % 5], dict(rng.choice(SHADOW_OPTS)), None, "jsonschema", feats)
+
+
+def campaign_e2e(ck: Check, n: int, n_collide: int, n_gql: int, n_hide: int = 60, n_shadow: int = 150) -> None:
     camp = ck.campaign("e2e: generate() → import the module → resolve forward references of every model → no member hides a class its annotation names (+ one conforming instance for the member-named-like-its-class family); static scope analysis (5 kinds, msgspec static only)")
     t0 = time.time()
     rng = ck.rng.fork("e2e")
@@ -784,6 +928,7 @@ def campaign_e2e(ck: Check, n: int, n_collide: int, n_gql: int, n_hide: int = 60
         opts = {k: v for k, v in opts.items() if k in ("use_union_operator", "use_standard_collections", "use_annotated", "field_constraints", "use_default_kwarg", "snake_case_field")}
         e2e_case(ck, camp, sdl, rng.choice(e2e.MODEL_KINDS), opts, target, "graphql", ["graphql"])
     campaign_hiding(ck, camp, ck.rng.fork("hiding"), n_hide)
+    campaign_shadow(ck, camp, ck.rng.fork("shadow"), n_shadow, e2e.MODEL_KINDS)
     camp.wall_s = time.time() - t0
 
 
@@ -868,12 +1013,16 @@ def known_findings(ck: Check) -> None:
         probe.findings = []
         camp = probe.campaign("witness")
         e2e_case(probe, camp, w["document"], w["model"], w.get("opts", {}), w.get("target"), w.get("input_file_type", "jsonschema"), instance=w.get("instance"))
-        if probe.failures:
+        if any(match_finding([f], fl.classification) for fl in probe.failures):
             ck.known(f["id"], f["what"])
+        else:  # the witness no longer fails the way the finding says: the finding is stale (repaired, or its matcher is wrong)
+            ck.notes.setdefault("known_findings_not_reconfirmed", []).append(
+                {"id": f["id"], "witness_failures": [fl.classification for fl in probe.failures][:3]})
 
 
 def run(ck: Check) -> None:
     quick = ck.tier == "quick"
+    ck.buckets = Buckets()
     ck.prove()
     ck.assumptions += [
         "Python's name resolution (module scope, class scope, deferred evaluation of annotations under `from __future__ import annotations`) is the static analysis of vlib/props/c02.py, cross-checked by really importing the module",
@@ -884,9 +1033,15 @@ def run(ck: Check) -> None:
     campaign_histories(ck, 400 if quick else 4000)
     campaign_prune(ck, 200 if quick else 3000)
     campaign_type_imports(ck, 800 if quick else 4000, thorough=not quick)
-    campaign_e2e(ck, 520 if quick else 3000, 140 if quick else 800, 60 if quick else 300, 80 if quick else 800)
+    campaign_e2e(ck, 520 if quick else 3000, 140 if quick else 800, 60 if quick else 300, 80 if quick else 800, 150 if quick else 1500)
     ck.search_hooks.append(search_after_break)
     known_findings(ck)
+    ck.notes["exceptions_not_name_binding"] = {
+        "rule": "every exception raised by importing an emitted module or by resolving/consuming its classes that the static class-scope analysis does not attribute to a hidden "
+                "or unbound name; bucket = exception type + message with quoted names blanked; disposition from the investigation recorded in vlib/classscope.py TRIAGE "
+                "(environment = the sandbox lacks a package; other_property = the failure belongs to the named check and is ignored here; untriaged = not seen before, look at the example)",
+        "buckets": ck.buckets.evidence(),
+    }
 
 
 def replay(ck: Check, path: str) -> int:
